@@ -300,7 +300,7 @@ func execPlanFreshFor(workdir string, plan []byte, prop string, v Violation) (*R
 	// GOMAXPROCS of the process that saw the violation
 	gmps := []int{v.GOMAXPROCS, v.GOMAXPROCS}
 	if prop == "C13" {
-		gmps = []int{v.GOMAXPROCS, v.GOMAXPROCS, 2, 16, 1}
+		gmps = []int{v.GOMAXPROCS, v.GOMAXPROCS, 2, 16, 1, v.GOMAXPROCS, 2, 1}
 	}
 	var rr *RunResult
 	var err error
@@ -800,7 +800,7 @@ func confirmWithPrefix(cfg driveCfg, eng *Engine, v Violation) (Violation, bool,
 	freshGOMAXPROCS = v.GOMAXPROCS
 	defer func() { freshGOMAXPROCS = 0 }()
 	check := func(pre []json.RawMessage) *Violation {
-		for a := 0; a < 2; a++ {
+		for a := 0; a < 3; a++ {
 			rr, err := execSeqFresh(cfg.workdir, pre, v.Plan, cfg.prop)
 			if err == nil {
 				if got := sameClass(rr, v); got != nil {
